@@ -3,6 +3,7 @@ Driver glue for M-Pen: S-expression ⇄ pen streams / glyph contents over `Rat`.
 -/
 import DefconModel.Util.SExp
 import DefconModel.Pen
+import DefconModel.Drivers.Cells
 
 namespace DefconModel
 namespace Pen
@@ -263,6 +264,21 @@ def driverStep (d : DState) (line : SExp) : DState × SExp :=
     withGlyph d sf sn fun g => do
       let (l, r) ← insertGlyph (getLayer d df) g (some dn)
       .ok ({ d with fonts := AL.set d.fonts df l, poisoned := d.poisoned.filter (· ≠ (df, dn)) }, ok (dump r))
+  | .list [.atom "copyInto", .str sf, .str sn, .str df, .str dn] =>
+    -- `copyDataFromGlyph` into a glyph that already holds data; a rejected copy leaves the destination
+    -- partly overwritten (not modelled: it is poisoned and removed), the source as it was
+    if (sf, sn) ∈ d.poisoned ∨ (df, dn) ∈ d.poisoned then (d, .list [.atom "poisoned"])
+    else
+      match getGlyph d sf sn, getGlyph d df dn with
+      | some g, some t =>
+        match copyData t g with
+        | .ok r => (setGlyph d df dn r, ok (dump r))
+        | .error e =>
+          -- the harness takes the half-overwritten destination out of its layer (no component resolves to it)
+          ({ d with fonts := AL.set d.fonts df (AL.erase (getLayer d df) dn), poisoned := (df, dn) :: d.poisoned },
+           err (errName e))
+      | _, _ => (d, err "KeyError")
+  | .list [.atom "hcopy", .atom route, src] => (d, Cells.hcopyStep route src)
   | .list [.atom "decompose", .str f, .str n, i] =>
     match asNat? i with
     | none => (d, .atom "bad-op")
